@@ -122,9 +122,12 @@ def ops_3d(dims, bs, rng, n, tracecount=None, structured=True):
 def ops_2d(nT, nZ, bs, rng, n):
     ops = []
     for j in range(n):
-        k = ['trace', 'sub', 'sub', 'full'][j % 4] if j < 8 else rng.choice(['trace', 'sub', 'sub'])
+        k = ['trace', 'sub', 'tracew', 'full'][j % 4] if j < 8 else rng.choice(['trace', 'sub', 'sub', 'tracew'])
         if k == 'trace':
             ops.append(('get_trace', (rng.randrange(nT),)))
+        elif k == 'tracew':
+            lo, hi = rand_range(nZ, bs[2], rng)
+            ops.append(('get_trace', (rng.randrange(nT), lo, hi)))
         elif k == 'sub':
             (a, b), (c, d) = rand_range(nT, bs[1], rng), rand_range(nZ, bs[2], rng)
             ops.append(('read_subplane', (a, b, c, d)))
@@ -173,7 +176,7 @@ def expected_3d(V, op, grid_of=None):
 def expected_2d(V, op):
     name, a = op[0], op[1]
     if name == 'get_trace':
-        return V[a[0]]
+        return V[a[0]] if len(a) < 3 else V[a[0], a[1]:a[2]]
     if name == 'read_subplane':
         return V[a[0]:a[1], a[2]:a[3]]
     raise KeyError(name)
